@@ -152,7 +152,7 @@ def r07_file(ctx):
     ev1 = [smf.Ev('message', 'note_on', smf.msg_attrs('note_on', '1'), smf.tsym('t1'))]
     ev2 = [smf.Ev('meta', 'set_tempo', {'tempo': smf.sym('tempo', 0xffffff)}, smf.tsym('t2'))]
 
-    def run_save(type_, ntracks):
+    def run_save(type_, ntracks, by_name=False):
         holder = {}
 
         def thunk():
@@ -160,16 +160,31 @@ def r07_file(ctx):
             tracks = AList([AList([e.build(ai, ctx) for e in evs], 'MidiTrack') for evs in [ev1, ev2][:ntracks]], 'list')
             mf = _midifile_obj(ctx, type_, tracks, smf.sym('tpb', 32766, 1))
             holder['out'] = out
-            ai.call_function(save, [mf], {'file': out})
+            if by_name:
+                ai.call_function(save, [mf], {'filename': 'out.mid'})
+            else:
+                ai.call_function(save, [mf], {'file': out})
             return out
-        return ai.explore(thunk), holder
-    # type 0 with two tracks / no track is rejected before anything is written
+        if by_name:
+            saved_open = ai.builtin_summaries.get('open')
+            ai.builtin_summaries['open'] = lambda i_, a_, k_, n_: holder['out']
+        try:
+            return ai.explore(thunk), holder
+        finally:
+            if by_name:
+                if saved_open is None:
+                    ai.builtin_summaries.pop('open', None)
+                else:
+                    ai.builtin_summaries['open'] = saved_open
+    # type 0 with two tracks / no track is rejected before anything is written - whichever way the destination is named
     for nt in (0, 2):
-        outs, h = run_save(0, nt)
-        ok = bool(outs) and all(o_.kind == 'raise' and o_.exc == 'ValueError' for o_ in outs) and not h['out'].written
-        ctx.require(ok, 'R07.4', f'save(type 0, {nt} tracks)', w,
-                    f'a type 0 file with {nt} tracks is not rejected with ValueError before writing: {outs}',
-                    construct=f'{save.qname}::type0({nt})')
+        for by_name in (False, True):
+            outs, h = run_save(0, nt, by_name)
+            how = 'filename=' if by_name else 'file='
+            ok = bool(outs) and all(o_.kind == 'raise' and o_.exc == 'ValueError' for o_ in outs) and not h['out'].written
+            ctx.require(ok, 'R07.4', f'save({how}, type 0, {nt} tracks)', w,
+                        f'a type 0 file with {nt} tracks saved with {how}... is not rejected with ValueError before writing: {outs}',
+                        construct=f'{save.qname}::type0({nt})')
     for type_, nt in ((0, 1), (1, 2), (2, 2), (1, 0)):
         outs, h = run_save(type_, nt)
         inst = f'save(type {type_}, {nt} tracks)'
@@ -357,7 +372,14 @@ def r07_clip(ctx):
     ctx.borrow(c08.r08_clip, 'R07.11')
 
 
-RULES = [('R07.11', r07_clip), ('R07.10', r07_fixed_point), ('R07.8', r07_vlq), ('R07.9', r07_codec), ('R07-induction', r07_induction), ('R07-scenarios', r07_scenarios), ('R07.5', r07_5), ('R07.4', r07_4), ('R07-file', r07_file)]
+def r07_division(ctx):
+    """Same type, ticks_per_beat and track count after save and load - for every value the header's division field may carry,
+    the SMPTE forms (a negative ticks_per_beat) included: what loads can be saved again (shared with C08 R08.4)."""
+    from . import c08
+    ctx.borrow(c08.r08_division, 'R07.12')
+
+
+RULES = [('R07.12', r07_division), ('R07.11', r07_clip), ('R07.10', r07_fixed_point), ('R07.8', r07_vlq), ('R07.9', r07_codec), ('R07-induction', r07_induction), ('R07-scenarios', r07_scenarios), ('R07.5', r07_5), ('R07.4', r07_4), ('R07-file', r07_file)]
 # (r07_1_time - "the delta parameter reaches every returned message", a def-use rule over the reader's return paths - is retired:
 # the reader scenarios and the one-step rules compare the time of every event kind, the unknown meta type included, and do
 # not care whether the time is passed to the constructor or assigned afterwards)
